@@ -147,6 +147,11 @@ def run_programs(ctx, progs, name, extra_args=None, chunk=2500, procs=8):
             is_v = ctx.violation(what, {"kind": "wasm_program", "program": p, "detail": rec}, signature=(known[0] if known else None))
             if not is_v:
                 nknown += 1
+                # the other recorded hazards that held on this run count as seen too (attribution goes to the first)
+                for extra in known[1:]:
+                    for k in ctx.known:
+                        if k.get("status") == "recorded" and k.get("signature") == extra:
+                            ctx.known_hits.setdefault(k["id"], {"finding": k, "count": 0, "example": what})["count"] += 1
     ctx.traces += len(progs)
     for p in progs:
         ctx.note_case(p["wasm"])
